@@ -59,6 +59,18 @@ def build_pool(rng, tier):
         groups.append(("tuple", forms))
     groups.append(("tuple", ["(1, 2)", "(1,) + (2,)", "(opaque(1), opaque(2))", "(1, 2.0)", "(1.0, 2.0)", "tuple([x for x in [1, 2]])"]))
     groups.append(("tuple", ["(%d, 1)" % (2**64), "(opaque(%d), 1)" % (2**64), "(float(%d), 1)" % (2**64), '(host_alloc("big", "%d"), 1)' % (2**64)]))
+    # numbers nested in hashable containers: the element hash (write_hash) path, per representation
+    nested = [-1, -2, -7, 3, -(2**31), 2**31 - 1, 2**31, -(2**31) - 1, -(2**40), 2**53, 2**64, -(2**64)]
+    if tier == "quick":
+        nested = [-1, -7] + rng.sample(nested[2:], 4)
+    for n in nested:
+        forms = ['(%d, "k")' % n, '(opaque(%d), "k")' % n, '(float(%d), "k")' % n, '((opaque(%d) + 0.0), "k")' % n,
+                 '(host_alloc("big", "%d"), "k")' % n, 'tuple([%d, "k"])' % n, '(int("%d"), "k")' % n]
+        if abs(n) < 2**31:
+            forms.append('(%d.0, "k")' % n)
+        groups.append(("tuple", forms))
+        groups.append(("tuple", ["((%d,),)" % n, "((float(%d),),)" % n, '((host_alloc("big", "%d"),),)' % n, "((opaque(%d),),)" % n]))
+        groups.append(("struct", ["struct(a=%d)" % n, "struct(a=float(%d))" % n, 'struct(a=host_alloc("big", "%d"))' % n, "struct(a=(opaque(%d),))" % n, "struct(a=(float(%d),))" % n]))
     lists = ["[]", "[1]", "[1, 2]", "[2, 1]", '["a"]', "[[1], [2]]", "[1.0, 2]", "[None]", "[(1, 2)]", "[1, 2, 3]"]
     for l in lists:
         inner = l[1:-1]
